@@ -3,7 +3,10 @@ import Frugal.Proofs.RoundTrip
 import Frugal.Proofs.NormFacts
 import Frugal.Proofs.ClearNocopy2
 import Frugal.Proofs.RoundTripHolder
-import Frugal.Props.Instances
+import Frugal.Props.Inst.Params
+import Frugal.Props.Inst.F_valid_depth
+import Frugal.Props.Inst.F_skeleton_decoder
+import Frugal.Props.Inst.F_skeleton_encoder
 namespace Frugal.C01
 open Frugal
 
@@ -173,4 +176,16 @@ example : normTop exS 0 (.st exV []) (.st exD []) =
     .st [.sc 0x7ff8000000000001, .lst false [],
          .ptr (.st [.sc 1, .lst false [.sc 5, .sc 4294967295], .nilp] [])] [] := by
   rfl
+/-- the theorems above that speak of `decodeM` / the reference reader are about the hand-written model
+    of `Decode` / `decodeType` / `decodeStringNoCopy` / `decodeFixedSizeTypes` / `skipUnknown`
+    (Decode.lean), written from exactly this control structure of the code (regenerated fingerprint) -/
+theorem decoder_model_written_from_this_code : Generated.facts.decoderSkeleton = Skeleton.decoder :=
+  Instances.skeleton_decoder
+
+/-- … and those that speak of `appendM` / `sizeM` about the hand-written model of `appendStruct` /
+    `appendAny` / the size walk / the entry points (Encode.lean), written from exactly this control
+    structure of the code (regenerated fingerprint; the fast-path tables are regenerated themselves) -/
+theorem encoder_model_written_from_this_code : Generated.facts.encoderSkeleton = Skeleton.encoder :=
+  Instances.skeleton_encoder
+
 end Frugal.C01
